@@ -576,39 +576,52 @@ def search(pid, inputs, cfg="debug"):
 
 
 def confirm(pid, h, cfg, r, mine, known):
-    """Called for a harness whose solver run produced a counterexample tagged with `pid`."""
+    """Called for a harness whose solver run produced a counterexample tagged with `pid`.
+    Phase 1: the property's native oracle over the replay corpus (about a minute). Phase 2, only if phase 1 finds
+    nothing: concrete playback of the counterexample (a second solver run), its text lifted into API-level contexts."""
     descs = "; ".join(sorted({fc["desc"] for fc in mine}))[:400]
     if not build():
         return [("inconclusive", None, "replay binaries could not be built")]
-    tests = []
-    try:
-        tests, _ = kani.concrete_playback(h, cfg, min(h["timeout"], 1500), h["mem"])
-    except Exception as e:  # pragma: no cover
-        print("concrete playback failed:", e)
-    cands = candidates_from_cex(h, cfg, tests)
     out = []
     seen_known = []
-    remaining = cands + corpus()
-    # skip inputs recorded as known findings of this property, reporting them
-    for attempt in range(6):
-        hit = search(pid, remaining, cfg)
-        if hit is None:
-            break
+
+    def hunt(inputs):
+        remaining = list(inputs)
+        for attempt in range(6):
+            hit = search(pid, remaining, cfg)
+            if hit is None:
+                return None
+            text, msg = hit
+            k = findings.match(known, pid, text)
+            if k is not None:
+                seen_known.append(json.dumps(text) + " :: " + k["what"])
+                remaining = [s for s in remaining if s != text]
+                continue
+            return text, msg
+        return None
+
+    hit = hunt(corpus())
+    ncand = 0
+    if hit is None and h.get("decoder") == "txt":
+        tests = []
+        try:
+            tests, _ = kani.concrete_playback(h, cfg, min(h["timeout"], 1500), h["mem"])
+        except Exception as e:  # pragma: no cover
+            print("concrete playback failed:", e)
+        cands = candidates_from_cex(h, cfg, tests)
+        ncand = len(cands)
+        if cands:
+            hit = hunt(cands)
+    if hit is not None:
         text, msg = hit
-        k = findings.match(known, pid, text)
-        if k is not None:
-            seen_known.append(json.dumps(text) + " :: " + k["what"])
-            remaining = [s for s in remaining if s != text]
-            continue
         path = _save(pid, text)
         out.append(("violation", path, f"{descs} -- reproduced through lex_program: {msg}"))
-        break
     for k in seen_known:
         out.append(("known", None, k))
     if not any(o[0] == "violation" for o in out):
         out.append(("inconclusive", None,
-                    f"solver counterexample ({descs}) did not reproduce through the public API on "
-                    f"{len(cands)} lifted inputs + the replay corpus: the pre-state may be unreachable or the corpus too small"))
+                    f"solver counterexample ({descs}) did not reproduce through the public API on the replay corpus "
+                    f"+ {ncand} lifted inputs: the pre-state may be unreachable or the corpus too small"))
     return out
 
 
